@@ -215,6 +215,9 @@ func Captures(src string) ([]string, error) {
 	}
 	var out []string
 	for _, s := range subs {
+		if s.Op == syntax.OpBeginText || s.Op == syntax.OpEndText {
+			continue // text anchors around the groups (see Anchored)
+		}
 		if s.Op != syntax.OpCapture {
 			return nil, fmt.Errorf("top-level element %q is not a capturing group", s.String())
 		}
@@ -227,3 +230,14 @@ func Captures(src string) ([]string, error) {
 }
 
 var _ = strings.Join
+
+// Anchored reports whether a match of the pattern found by an unanchored
+// search is necessarily the whole text: the pattern is a concatenation that
+// begins with \A / ^ and ends with \z / $ (no multi-line flag).
+func Anchored(src string) bool {
+	re, err := syntax.Parse(src, syntax.Perl)
+	if err != nil || re.Op != syntax.OpConcat || len(re.Sub) < 2 {
+		return false
+	}
+	return re.Sub[0].Op == syntax.OpBeginText && re.Sub[len(re.Sub)-1].Op == syntax.OpEndText
+}
